@@ -2027,6 +2027,20 @@ func (e *Engine) WriteSnapshot() (err error) {
 	return e.writeSnapshot()
 }
 
+// flushCache writes out everything the cache holds.  After a cache snapshot whose write
+// failed, one WriteSnapshot only writes that retained snapshot again and leaves the live
+// cache where it is, so the live cache needs a second pass.
+func (e *Engine) flushCache() error {
+	e.snapshotMu.Lock()
+	defer e.snapshotMu.Unlock()
+	if e.Cache.hasRetainedSnapshot() {
+		if err := e.writeSnapshot(); err != nil {
+			return err
+		}
+	}
+	return e.writeSnapshot()
+}
+
 // writeSnapshot is WriteSnapshot for callers that hold snapshotMu.
 func (e *Engine) writeSnapshot() (err error) {
 	// Lock and grab the cache snapshot along with all the closed WAL
@@ -2102,11 +2116,11 @@ func (e *Engine) writeSnapshot() (err error) {
 // skipCacheOk controls whether it is permissible to fail writing out
 // in-memory cache data when a previous snapshot is in progress
 func (e *Engine) CreateSnapshot(skipCacheOk bool) (string, error) {
-	err := e.WriteSnapshot()
+	err := e.flushCache()
 	for i := 0; (i < 3) && (err == ErrSnapshotInProgress); i += 1 {
 		backoff := time.Duration(math.Pow(32, float64(i))) * time.Millisecond
 		time.Sleep(backoff)
-		err = e.WriteSnapshot()
+		err = e.flushCache()
 	}
 	if (err == ErrSnapshotInProgress) && skipCacheOk {
 		e.logger.Warn("Snapshotter busy: proceeding without cache contents.")
